@@ -112,8 +112,8 @@ Section ObserverView.
     rewrite Hb. apply resp_view_exists.
   Qed.
 
-  Lemma fold_fetch_part (ms : list msgid) f op au si fo : forall v,
-    fold_left (fun a r => resp_view r a) (map (fun m => RFetch m f op au si fo) ms) v
+  Lemma fold_fetch_part (ms : list msgid) f op au (si : msgid -> bool) fo : forall v,
+    fold_left (fun a r => resp_view r a) (map (fun m => RFetch m f op au (si m) fo) ms) v
     = fold_left (fun acc m => view_set m (fun cur => keep_deleted fo cur (flag_op op f cur)) acc) ms v.
   Proof. induction ms as [|m t IH]; intros v; [reflexivity|]. cbn [map fold_left]. rewrite resp_view_fetch. apply IH. Qed.
 
@@ -128,7 +128,8 @@ Section ObserverView.
       + cbn [upd_responders fold_left]. apply resp_view_expunge.
       + cbn [fold_left]. symmetry. apply snap_remove_absent. apply absent_from_view; assumption.
     - clear Hf. cbn [upd_responders ss_sel obs]. generalize (view_of pre). induction parts as [|[[ms f] op] t IH]; intros v; [reflexivity|].
-      cbn [map concat fold_left]. rewrite fold_left_app, fold_fetch_part. apply IH.
+      cbn [map concat fold_left]. rewrite fold_left_app.
+      rewrite (fold_fetch_part ms f op false (fun m => Nat.eqb og o && si && false && negb (pending_exists m (ss_st (obs mb snap0 pre [])))) _). apply IH.
     - destruct (has_or_pending m (ss_st (obs mb snap0 pre []))) eqn:H.
       + cbn [upd_responders fold_left]. rewrite resp_view_fetch. unfold keep_deleted. reflexivity.
       + cbn [fold_left]. symmetry. unfold view_set. apply snap_set_flags_absent. apply absent_from_view; assumption.
